@@ -48,17 +48,20 @@ fn c11_angles() {
     assert!(c.ebc_angle_degrees() == angle(c.ebc_angle));
 }
 
-/// uom-typed angle accessors agree with the plain ones
+/// uom-typed angle accessors carry the same quantity as the plain ones: each equals `Angle::new::<degree>` of
+/// its own plain accessor.  (Not `.get::<degree>() == plain`: uom stores radians, and deg -> rad -> deg is not
+/// the identity in floating point; the property speaks about the degree value, which the plain accessors give.)
 #[cfg(feature = "uom")]
 #[kani::proof]
 #[kani::stub(f64::powf, pow2_exact)]
 fn c11_angles_uom() {
     use uom::si::angle::degree;
+    use uom::si::f64::Angle;
     let mut c = blank_cut();
     c.elevation_angle = kani::any();
     c.ebc_angle = kani::any();
-    assert!(c.elevation_angle().get::<degree>() == angle(c.elevation_angle));
-    assert!(c.ebc_angle().get::<degree>() == angle(c.ebc_angle));
+    assert!(c.elevation_angle() == Angle::new::<degree>(angle(c.elevation_angle)));
+    assert!(c.ebc_angle() == Angle::new::<degree>(angle(c.ebc_angle)));
 }
 
 /// azimuth rate is ((raw >> 3) & 0xFFF) x 22.5/2048 deg/s, negated when bit 15 is set
